@@ -126,7 +126,18 @@ def gen_items(ctx: core.Ctx, n: int) -> list[tuple[str, str | None]]:
 
 def correspondence(ctx: core.Ctx) -> None:
     run(ctx, [(t, None) for t in CORPUS], "corpus")
-    items = gen_items(ctx, ctx.budget(260, 9000))
+    # same-variable contradictions / tautologies / overlaps nested inside a compound, in every position
+    sv = G.same_variable_pairs(ctx.rng, 0)
+    sv = ctx.rng.sample(sv, min(len(sv), ctx.budget(160, 3000)))
+    nested: list[tuple[str, str | None]] = []
+    for a, b in sv:
+        c = G.leaf(ctx.rng)
+        inner = f"({a} {ctx.rng.choice(['and', 'or'])} {b})"
+        op = ctx.rng.choice(["and", "or"])
+        nested.append((f"{inner} {op} {c}" if ctx.rng.random() < 0.5 else f"{c} {op} {inner}", None))
+    for k in range(0, len(nested), 300):
+        run(ctx, nested[k:k + 300], "nested-same-variable")
+    items = gen_items(ctx, ctx.budget(220, 9000))
     for k in range(0, len(items), 300):
         run(ctx, items[k:k + 300], "gen")
 
